@@ -302,6 +302,7 @@ class _Env(object):
         self.base = BASE
         self.nfile = 0
         self.objects = []        # everything with a .close() that owns a descriptor >= base
+        self.raw = []            # descriptors opened with os.open by the harness itself
 
     def specs(self):
         """config dicts for CircusSocket.load_from_config (before the filler: reserving a port opens a socket)"""
@@ -367,6 +368,7 @@ class _Env(object):
         self.nfile += 1
         fd = os.open(os.path.join(self.dir, "f%d" % self.nfile), os.O_CREAT | os.O_RDWR, 0o600)
         os.set_inheritable(fd, bool(inh))
+        self.raw.append(fd)
         return fd
 
     def photo(self):
@@ -405,19 +407,33 @@ class _Env(object):
     def close(self):
         # Python objects first (a file/socket object closed later by the garbage collector would close a
         # descriptor number that by then belongs to the next case), raw descriptors last
-        import gc
         for o in self.objects:
             try:
                 o.close()
             except Exception:
                 pass
         self.objects = []
-        gc.collect()
-        for fd in range(self.base, self.base + SPAN):
+        for fd in self.raw:
             try:
                 os.close(fd)
             except OSError:
                 pass
+        self.raw = []
+        left = []
+        for fd in range(self.base, self.base + SPAN):
+            try:
+                os.fstat(fd)
+                left.append(fd)
+            except OSError:
+                pass
+        if left:
+            import gc
+            gc.collect()        # an object nobody closed still owns a descriptor: let it go first
+            for fd in left:
+                try:
+                    os.close(fd)
+                except OSError:
+                    pass
         for fd in self.fillers:
             try:
                 os.close(fd)
@@ -643,7 +659,9 @@ def _impl_hist(case):
                 others.append(env.open_other(op[1]))
             elif k == "C":
                 if op[1] < len(others):
-                    os.close(others.pop(op[1]))
+                    fd = others.pop(op[1])
+                    env.raw.remove(fd)
+                    os.close(fd)
             elif k == "X":
                 sockets.close_all()                     # what stop_controller_and_close_sockets does with them
                 phase = "x"
@@ -887,7 +905,9 @@ def _impl_live(case):
                 others.append(env.open_other(op[1]))
             elif k == "C":
                 if op[1] < len(others):
-                    os.close(others.pop(op[1]))
+                    fd = others.pop(op[1])
+                    env.raw.remove(fd)
+                    os.close(fd)
             elif k == "D":
                 pass
         return {"reports": reports, "base": env.base}
@@ -1256,7 +1276,7 @@ def _check_worker(case, w, rec, inherited, startup, fails, where):
         names = [s["name"].lower() for s in case["sockets"]]
         if loose and len(loose) == len(argv) and all(p.match(a) for p, a in zip(loose, argv)) \
                 and len(set(names)) < len(names):
-            sig = "C07:socket-names-differing-only-by-case-shadow-each-other"
+            sig = "C07:socket-name-case-shadow"
         fails.append(_fail(sig, "%s: argv %r does not carry the startup descriptor numbers of the referenced "
                                 "sockets (expected %r)" % (where, argv, [p.pattern for p in exp])))
     inh = {e[0]: e for e in inherited}
